@@ -128,7 +128,11 @@ fn check_incremental<const R: usize, const A: usize, const N: usize>(a_cut: usiz
         i += 1;
     }
     trace_is_rfc(&aad, &ect);
-    let mut dec = ctx.to_decryption();
+    // a fresh context for the decrypting side (an AAD of 16 bytes or more has MAC blocks recorded before any clone)
+    let mut ctx2 = Context::<R>::new(&KEY, &NONCE);
+    ctx2.add_data(&aad[..a_cut]);
+    ctx2.add_data(&aad[a_cut..]);
+    let mut dec = ctx2.to_decryption();
     let mut back = ect;
     dec.decrypt_mut(&mut back[..n_cut]);
     dec.decrypt_mut(&mut back[n_cut..]);
